@@ -166,6 +166,42 @@ Fixpoint protocol_run_b (s : st) (ops : list op) : bool :=
   | o :: ops' => protocol_hold_b s o && protocol_run_b (apply_op s o) ops'
   end.
 
+(* The build-loop protocol the state invariants I4 and I5c depend on (each clause is what the
+   executor does): hold / amend are requested by a step whose job is in flight; a job that is
+   (re)started (reset_for_rerun) is RUNNING or CHECKING, never SUCCEEDED; a successful run reports
+   a hash for every output that was still PLANNED (a missing output makes the run fail). *)
+Definition not_succeeded_b (l : str) (s : st) : bool :=
+  match sstate_of l s with Some SSucceeded => false | _ => true end.
+Definition no_planned_product_b (l : str) (s : st) : bool :=
+  forallb (fun n => match nk n, ncre n with
+                    | (KFile, f), Some c =>
+                      negb (key_eqb c (KStep, l)) ||
+                      negb (match fstate_of f s with Some FPlanned => true | _ => false end)
+                    | _, _ => true end) (nodes s).
+Definition protocol_ok (s : st) (o : op) : bool :=
+  match o with
+  | OpHold l => protocol_hold_b s o
+  | OpAmendStep l _ _ _ _ => not_succeeded_b l s
+  | OpResetForRerun l => not_succeeded_b l s
+  | OpResetToPending l => not_succeeded_b l s
+  | OpExecEnd l pre c hs true wd =>
+    match update_file_hashes CFailed pre s with
+    | Ok s0 => match update_file_hashes c hs s0 with
+               | Ok s1 => no_planned_product_b l s1
+               | _ => true end
+    | _ => true end
+  | _ => true
+  end.
+Fixpoint protocol_ok_run (s : st) (ops : list op) : bool :=
+  match ops with
+  | [] => true
+  | o :: ops' => protocol_ok s o && protocol_ok_run (apply_op s o) ops'
+  end.
+
+(* the invariant with the protocol-dependent clauses: I4 (through I4a, I4b) and I5c *)
+Definition inv_full_b (s : st) : bool :=
+  inv_b s && inv_succ_products_b s && inv_running_nohash_b s.
+
 (* Requests issued through the director by a step that exists: the creator of a declaration or of
    a new step is the root (boot) or a step node; the amended / holding / releasing step exists;
    argument lists are duplicate free (the code makes them sorted(set(...))). *)
